@@ -1636,14 +1636,14 @@ pub fn gen_epoch(rng: &mut Rng) -> EpochCfg {
     }
 }
 
-/// set member / hash field / sorted-set member that is not valid UTF-8: the containers store it in
-/// lossy form (known findings `C01:*-not-binary-safe`, reported on the single commands); scripts
-/// stay clear of that cause
+/// hash field / sorted-set member that is not valid UTF-8: the containers store it in lossy form (known
+/// findings `C01:{hash-field,zset-member}-not-binary-safe`, reported on the single commands); scripts stay
+/// clear of that cause. Set members are binary safe since the fix 'set members are binary safe'.
 pub fn has_binary_name(cmd: &Command) -> bool {
     let bad = |x: &SDS| std::str::from_utf8(x.as_bytes()).is_err();
     match cmd {
-        Command::SAdd(_, ms) | Command::SRem(_, ms) | Command::ZRem(_, ms) | Command::HDel(_, ms) => ms.iter().any(bad),
-        Command::SIsMember(_, m) | Command::HGet(_, m) | Command::HExists(_, m) | Command::ZScore(_, m) | Command::ZRank(_, m) | Command::HIncrBy(_, m, _) => bad(m),
+        Command::ZRem(_, ms) | Command::HDel(_, ms) => ms.iter().any(bad),
+        Command::HGet(_, m) | Command::HExists(_, m) | Command::ZScore(_, m) | Command::ZRank(_, m) | Command::HIncrBy(_, m, _) => bad(m),
         Command::HSet(_, fvs) => fvs.iter().any(|(f, _)| bad(f)),
         Command::ZAdd { pairs, .. } => pairs.iter().any(|(_, m)| bad(m)),
         _ => false,
@@ -1663,9 +1663,6 @@ pub fn cause_variant(cmd: &Command, ro: bool) -> Option<(String, &'static str, b
         // lossy names is what the code does
         let l = |v: &Vec<SDS>| v.iter().map(lossy).collect::<Vec<_>>();
         let (lc, sig) = match cmd {
-            Command::SAdd(k, ms) => (Command::SAdd(k.clone(), l(ms)), "C01:set-member-not-binary-safe"),
-            Command::SRem(k, ms) => (Command::SRem(k.clone(), l(ms)), "C01:set-member-not-binary-safe"),
-            Command::SIsMember(k, m) => (Command::SIsMember(k.clone(), lossy(m)), "C01:set-member-not-binary-safe"),
             Command::HSet(k, fvs) => (Command::HSet(k.clone(), fvs.iter().map(|(f, v)| (lossy(f), v.clone())).collect()), "C01:hash-field-not-binary-safe"),
             Command::HDel(k, fs) => (Command::HDel(k.clone(), l(fs)), "C01:hash-field-not-binary-safe"),
             Command::HGet(k, f) => (Command::HGet(k.clone(), lossy(f)), "C01:hash-field-not-binary-safe"),
